@@ -4,7 +4,7 @@ import itertools
 from vmc.core import listing
 from vmc.core.listing import ok, bad
 from vmc.oracles import aff, flatten, shaper, snapgrid
-from vmc.oracles.scene import Glyph, Shape, Solid, place
+from vmc.oracles.scene import Glyph, Group, Shape, Solid, place
 from vmc.props import common
 
 # outlines in generic position w.r.t. the matcher's snap grid (margin >= 0.12 steps for
@@ -50,14 +50,17 @@ def scene_for(case):
         # be placed from it (the translation leaves the 16.16 range), so the donor has to become the outline later copies use
         pre = [Shape(place(d0, aff.mul(S, aff.mul(aff.tr(94, 93), aff.sc(1 / 40))), nd=6), Solid("orange"), label="tiny-first")]
     n = len(pre)
+    first = [donor, filler]
+    if case.get("grouped") == "donor":  # the first occurrence sits inside a translucent group
+        first = [Group(0.5, [donor, filler])]
     if case["where"] == "same":
-        return [Glyph((0xE000,), vb, pre + [donor, filler, copy])], (0, n, 0, n + 2)
+        return [Glyph((0xE000,), vb, pre + first + [copy])], (0, n, 0, n + 2)
     vb_b = vb
     if case.get("vb2") == "wide":  # the other glyph has a wider viewBox of the same height (same scale, another placement in the em)
         vb_b = (0, 0, case["vb"] * 1.5, case["vb"])
     elif case.get("vb2") == "offset":
         vb_b = (-0.1 * case["vb"], 0.07 * case["vb"], case["vb"], case["vb"])
-    return [Glyph((0xE000,), vb, pre + [donor, filler]), Glyph((0xE001,), vb_b, [filler2, copy])], (0, n, 1, 1)
+    return [Glyph((0xE000,), vb, pre + first), Glyph((0xE001,), vb_b, [filler2, copy])], (0, n, 1, 1)
 
 
 def _resolve(font, fmt, name):
@@ -138,6 +141,8 @@ def cases(tier):
         base = out[-1]
         if tier != "quick" or (mi == "none" and vb == 100):
             out.append(dict(base, prelude="tiny_far"))
+        if tier != "quick" or (mi == "none" and vb == 100):
+            out.append(dict(base, grouped="donor"))
         if w == "other" and (tier != "quick" or (mi == "none" and vb == 100)):
             out.append(dict(base, vb2="wide"))
             out.append(dict(base, vb2="offset"))
@@ -159,7 +164,7 @@ def run(report, tier, only=None):
     listing.run(report, cs, execute, timeout=120, transitions_per_case=1)
     report.extra["outline_snap_margins_steps"] = {n: round(min(snapgrid.margin(d, t / 10) for t in TOLS), 3) for n, d in OUTLINES.items()}
     report.rule = (
-        "full product outline x translation x rotation x mirror x viewBox size x {same glyph, other glyph} x tolerance x {no prelude, an earlier tiny far-away shape with the same normalised outline from which the donor cannot be placed} x {the other glyph has the same / a wider / a shifted viewBox} x "
+        "full product outline x translation x rotation x mirror x viewBox size x {same glyph, other glyph} x tolerance x {no prelude, an earlier tiny far-away shape with the same normalised outline from which the donor cannot be placed} x {the other glyph has the same / a wider / a shifted viewBox} x {the first occurrence at top level / inside a translucent group} x "
         "{glyf_colr_0, glyf_colr_1, picosvg} (quick: a sub-product), each built with the real code; donor and copy must resolve "
         "to one outline glyph / one <path> (after flattening composites and <use>); with tolerance -1 they must be separate; "
         "distinct = format x shared/separate"
